@@ -197,6 +197,7 @@ func checkC13(r *core.Run) {
 	c13Mirror(r, rd, wr)
 	// messages returned by Read must not alias the transport's receive buffer: the string readers copy
 	c12Helpers(r, "C13.copy")
+	c12Pure(r, "C13.pure")
 	r.Floor("C13.copy", 8)
 	r.Floor("C13.header", 4)
 	r.Floor("C13.total", 4)
